@@ -4,8 +4,10 @@ import (
 	"fmt"
 	"go/token"
 	"go/types"
+	"os"
 	"sort"
 	"strings"
+	"time"
 
 	"golang.org/x/tools/go/ssa"
 )
@@ -14,6 +16,7 @@ import (
 type Thread struct {
 	ID      int
 	Name    string
+	Key     string // identity that is stable across runs of the same harness
 	conts   []*State
 	index   map[string]*State
 	exit    *Term // guard under which the thread has terminated
@@ -23,6 +26,7 @@ type Thread struct {
 
 type timerRec struct {
 	id     int
+	key    string
 	obj    *Object
 	due    *Term
 	active *Term
@@ -30,6 +34,13 @@ type timerRec struct {
 	ch     *Object // channel timer's C
 	exists *Term
 	fired  int
+	arms   []*armRec // program points that armed this timer (AfterFunc / Reset)
+}
+
+// armRec: one arming of a timer; cur = this arming is the one in force.
+type armRec struct {
+	key string
+	cur *Term
 }
 
 type accessRec struct {
@@ -59,6 +70,19 @@ type Sched struct {
 	Races    bool
 	segments int
 	lastAny  *Term
+	// SlotKeys[i] = identity keys of the slots (threads, then timers) at scheduler step i
+	SlotKeys [][]string
+	// concrete replay: the slot chosen at each step (by key), the resulting trace
+	FixedKeys  []string
+	Trace      []TraceStep
+	PhaseSteps []int
+	nMainGo    int
+}
+
+// TraceStep is one step of a concrete schedule in creation-order numbering.
+type TraceStep struct {
+	K string `json:"k"`
+	I int    `json:"i"`
 }
 
 type syncInfo struct {
@@ -91,7 +115,26 @@ func (ex *Exec) spawn(st *State, name string, fv *FuncV, args []Value, pos token
 			ex.oblige(st, "panic:nil", "go of nil function", ex.tb.Not(al.G), pos)
 			continue
 		}
-		th := ex.newThread(name, g)
+		var key string
+		if st.thread != nil {
+			// deterministic identity of goroutines started by goroutines (see adopt)
+			ex.position(st)
+			ex.adoptSeq++
+			key = fmt.Sprintf("%s#%d|%s", st.key, ex.adoptSeq, al.Fn.String())
+		} else if tk, ok := timerSpawnKey(name); ok {
+			key = tk
+		} else {
+			ex.sched.nMainGo++
+			key = fmt.Sprintf("main-go#%d", ex.sched.nMainGo)
+		}
+		th, ok := ex.threadCache[key]
+		if ok {
+			th.created = ex.tb.Or(th.created, g)
+		} else {
+			th = ex.newThread(name, g)
+			th.Key = key
+			ex.threadCache[key] = th
+		}
 		ns := &State{thread: th, startup: true}
 		ex.setGuard(ns, g)
 		full := args
@@ -104,6 +147,14 @@ func (ex *Exec) spawn(st *State, name string, fv *FuncV, args []Value, pos token
 		ex.pushFrame(ns, al.Fn, full, al.Bindings, nil, true)
 		ex.parkState(ns)
 	}
+}
+
+// timerSpawnKey: callbacks of the same timer firing for the same time (k-th firing) are one thread.
+func timerSpawnKey(name string) (string, bool) {
+	if strings.HasPrefix(name, "timer") {
+		return "spawn|" + name, true
+	}
+	return "", false
 }
 
 func (ex *Exec) goInstr(st *State, in *ssa.Go) bool {
@@ -223,6 +274,9 @@ func (ex *Exec) callSyncInfo(st *State, cc *ssa.CallCommon) *syncInfo {
 	if fn == nil {
 		return nil
 	}
+	if fn.Name() == "vYield" && ex.isHarnessFn(fn) {
+		return &syncInfo{enabled: ex.tb.True}
+	}
 	if _, ok := syncEnabled[fn.String()]; !ok {
 		return nil
 	}
@@ -325,6 +379,8 @@ func (ex *Exec) enabledOf(st *State) *Term {
 func (ex *Exec) Quiesce(maxSteps int) *Term {
 	tb := ex.tb
 	sc := ex.sched
+	step0 := sc.step
+	defer func() { sc.PhaseSteps = append(sc.PhaseSteps, sc.step-step0) }()
 	for n := 0; n < maxSteps; n++ {
 		type cand struct {
 			th  *Thread
@@ -352,9 +408,50 @@ func (ex *Exec) Quiesce(maxSteps int) *Term {
 			sc.lastAny = tb.False
 			return tb.False
 		}
+		if os.Getenv("VERIF_DEBUG") != "" {
+			nc := 0
+			for _, th := range sc.threads {
+				nc += len(th.conts)
+			}
+			fmt.Printf("[sched %6.1fs] step %d threads=%d conts=%d timers=%d terms=%d feas=%d\n", time.Since(ex.start).Seconds(), sc.step, len(sc.threads), nc, len(sc.timers), ex.tb.NumTerms(), ex.NFeas)
+		}
 		nT := len(sc.threads)
 		nSlots := nT + len(sc.timers)
-		sv := tb.Var(fmt.Sprintf("sched!%d", sc.step), SInt, big0, bigInt(int64(nSlots-1)))
+		keys := make([]string, nSlots)
+		for _, th := range sc.threads {
+			keys[th.ID] = th.Key
+		}
+		for _, tm := range sc.timers {
+			keys[nT+tm.id] = "timer|" + tm.key
+		}
+		sc.SlotKeys = append(sc.SlotKeys, keys)
+		var sv *Term
+		if sc.FixedKeys != nil {
+			// concrete replay of a model: pick the slot with the recorded identity
+			choice := -1
+			if sc.step < len(sc.FixedKeys) {
+				for i, k := range keys {
+					if k == sc.FixedKeys[sc.step] {
+						choice = i
+					}
+				}
+			}
+			sv = tb.Int(int64(choice))
+			if choice < 0 {
+				// the model says nothing about this step: end of the concrete schedule
+				sc.step++
+				sc.vars = append(sc.vars, sv)
+				sc.nThreads = append(sc.nThreads, nSlots)
+				return tb.False
+			}
+			if choice >= nT {
+				sc.Trace = append(sc.Trace, TraceStep{K: "M", I: choice - nT})
+			} else {
+				sc.Trace = append(sc.Trace, TraceStep{K: "T", I: choice})
+			}
+		} else {
+			sv = tb.Var(fmt.Sprintf("sched!%d", sc.step), SInt, big0, bigInt(int64(nSlots-1)))
+		}
 		sc.vars = append(sc.vars, sv)
 		sc.nThreads = append(sc.nThreads, nSlots)
 		sc.step++
@@ -443,14 +540,48 @@ func (ex *Exec) Quiesce(maxSteps int) *Term {
 	return anyT
 }
 
+// armTimer records that the timer was (re)armed at the current program point under guard g.
+func (ex *Exec) armTimer(st *State, tm *timerRec, g *Term) {
+	tb := ex.tb
+	key := "main"
+	if st.thread != nil {
+		ex.position(st)
+		key = st.key
+	} else {
+		ex.nArm++
+		key = fmt.Sprintf("main#%d", ex.nArm)
+	}
+	var cur *armRec
+	for _, a := range tm.arms {
+		if a.key == key {
+			cur = a
+		} else {
+			a.cur = tb.And(a.cur, tb.Not(g))
+		}
+	}
+	if cur == nil {
+		cur = &armRec{key: key, cur: tb.False}
+		tm.arms = append(tm.arms, cur)
+	}
+	cur.cur = tb.Or(cur.cur, g)
+}
+
 func (ex *Exec) fireTimer(tm *timerRec, fire *Term) {
 	tb := ex.tb
 	tm.active = tb.And(tm.active, tb.Not(fire))
 	tm.fired++
 	if tm.fn != nil {
-		fs := &State{}
-		ex.setGuard(fs, fire)
-		ex.spawn(fs, fmt.Sprintf("timer%d.cb%d", tm.id, tm.fired), tm.fn, nil, token.NoPos)
+		// one callback goroutine per arming of the timer (the firings of one arming at different
+		// scheduler steps are mutually exclusive)
+		for i, a := range tm.arms {
+			g := tb.And(fire, a.cur)
+			if g.IsFalse() {
+				continue
+			}
+			fs := &State{}
+			ex.setGuard(fs, g)
+			ex.spawn(fs, fmt.Sprintf("timer%d.arm%d", tm.id, i), tm.fn, nil, token.NoPos)
+		}
 		return
 	}
 	// channel timer: non-blocking send of the current time
@@ -674,6 +805,18 @@ func init() {
 		}
 		return r, true
 	}
+	// vClosed: ghost observation of a channel's closed flag (no scheduling point)
+	h["vClosed"] = func(ex *Exec, c *callCtx) (Value, bool) {
+		p := ex.restrictVal(c.args[0].(*Ptr), c.st.ctx).(*Ptr)
+		r := ex.overAlts(p, func(o *Object) *Term {
+			if o == nil {
+				return ex.tb.False
+			}
+			return o.Closed
+		})
+		return ex.tb.Restrict(r, c.st.ctx), true
+	}
+	h["vYield"] = func(ex *Exec, c *callCtx) (Value, bool) { return nil, true }
 	h["vNow"] = func(ex *Exec, c *callCtx) (Value, bool) { return ex.clock, true }
 	h["vAdvance"] = func(ex *Exec, c *callCtx) (Value, bool) {
 		d := c.args[0].(*Term)
